@@ -32,6 +32,15 @@ def judge(s, m, ienvs, F, pair=None):
         for name, f in (("intersect", lambda: m.intersect(pair)), ("union", lambda: m.union(pair))):
             r = K.capped(f)
             if r is not None and not isinstance(r, Exception): results.append((name, r))
+    # normal forms of the derived markers as well (an inverse is built structurally, its normal form goes through the algebra)
+    for name, r in list(results[1:]):
+        tr = K.truth(r, ienvs)
+        for form, f in (("cnf", cnf), ("dnf", dnf)):
+            r2 = K.capped(lambda: f(r))
+            if r2 is None or isinstance(r2, RecursionError): continue
+            if isinstance(r2, Exception): return f"{form}({name}) raised {type(r2).__name__}: {r2}", results
+            if K.truth(r2, ienvs) != tr: return f"{form} of the {name} result {r} = {r2} changes the truth table", results
+            if not shape_ok(r2, form): return f"{form} of the {name} result = {r2} is not in {form.upper()}", results
     for name, r in results:
         d = K.roundtrip_detail(r, ienvs, F)
         if d: return f"{name}: {d}", results
@@ -49,6 +58,8 @@ def run(tier):
     mreq, midx = [], []
     for it in range(400 if tier == "quick" else 10000):
         s, k, feats = MI.gen_marker(rng, depth=3, leaves=rng.randint(1, 4 if tier == "quick" else 6))
+        if it % 6 == 4:      # clauses on the interpreter version only: bounds that leave gaps, touch and overlap
+            s, k, feats = MI.gen_marker(rng, depth=2, leaves=rng.randint(2, 4), focus=["pv", "pfv"])
         if it % 6 == 5:      # a contradictory or always-true group among ordinary clauses
             s, k = MI.gen_degenerate_marker(rng), 3; R.count("degenerate_group_cases")
         s2, _, _ = MI.gen_marker(rng, depth=2, leaves=rng.randint(1, 2))
@@ -72,8 +83,20 @@ def run(tier):
                 if len(R.notes) < 5: R.notes.append(f"{name}({s}): model text {res[1]!r} implementation {exp[1]!r}")
             else:
                 R.disagree(f"text/evaluation of the {name} result", dict(marker=s, result=str(r)), res[:6], exp[:6])
-    M.close(); F.close()
-    return R.finish(K.TRUSTED, ASSUME, RULE, "make -C coq Properties/C13.vo && coqc Properties/C13.v (Print Assumptions)")
+    M.close()
+    def judge_one(text):
+        m = K.parse(text)
+        if m is None or isinstance(m, Exception) or MI.two_reversed_substring_leaves(text): return None
+        d, _ = judge(text, m, ienv, F)
+        return d
+    def fresh(Rn):
+        for _ in range(200 if tier == "quick" else 2000):
+            yield MI.gen_marker(rng, depth=2, leaves=rng.randint(2, 3), focus=rng.choice([None, ["pv", "pfv"]]))[0]
+    try:
+        return R.finish(K.TRUSTED, ASSUME, RULE, "make -C coq Properties/C13.vo && coqc Properties/C13.v (Print Assumptions)",
+                        search=K.make_marker_search(judge_one=judge_one, fresh=fresh))
+    finally:
+        F.close()
 
 def replay(rep):
     c = rep["case"]; F = common.Ref()
